@@ -13,7 +13,7 @@ import (
 )
 
 func (sa *Safe) setState(dst, src *State) {
-	dst.itv, dst.nils, dst.facts, dst.mem, dst.guards, dst.dead, dst.logs, dst.written = src.itv, src.nils, src.facts, src.mem, src.guards, src.dead, src.logs, src.written
+	dst.itv, dst.nils, dst.facts, dst.mem, dst.guards, dst.dead, dst.logs, dst.written, dst.first = src.itv, src.nils, src.facts, src.mem, src.guards, src.dead, src.logs, src.written, src.first
 }
 
 func (sa *Safe) bindResult(fr *frame, x *ssa.Call, vals []AVal) {
@@ -533,6 +533,13 @@ func (sa *Safe) stdlib(fr *frame, st *State, x *ssa.Call, callee *ssa.Function, 
 			var val *Lin
 			if d.Kind == avInt {
 				val = d.Lin
+			} else if d.Kind == avPtr && d.Obj != nil {
+				// a pointer to an integer: the value written is the pointee
+				if m := st.mem[d.Obj]; m != nil {
+					if pv, ok := m[d.Path]; ok && pv.Kind == avInt {
+						val = pv.Lin
+					}
+				}
 			}
 			st.appendLog(b.Obj, logEntry{Size: sz, Val: val, Desc: exprText(x.Call.Args[2]), Pos: int(x.Pos())})
 		}
